@@ -428,6 +428,14 @@ func (g *gen) boolExpr(d int, pure bool) ex {
 		a, b := g.intExpr(d-1, pure), g.intExpr(d-1, pure)
 		return ex{s: a.at(pCmp) + " " + pick2(g.r, "==", "!=") + " " + b.at(pCmp), p: pEq}
 	case 6:
+		if l := g.pickVar(func(v *gv) bool { return v.t == "list" }); l != nil && g.r.Bool() {
+			// == / != on lists (rewritten to !(a != b) / !(a == b))
+			var el []string
+			for i := 0; i < l.n; i++ {
+				el = append(el, g.intExpr(0, true).s)
+			}
+			return ex{s: l.name + " " + pick2(g.r, "==", "!=") + " [" + strings.Join(el, ", ") + "]", p: pEq}
+		}
 		a, b := g.strExpr(d-1), g.strExpr(d-1)
 		return ex{s: a.at(pCmp) + " " + pick2(g.r, "==", "!=") + " " + b.at(pCmp), p: pEq}
 	case 7:
@@ -619,9 +627,13 @@ func (g *gen) stmt(d int) {
 		g.letStmt(2)
 	case 5, 6, 7:
 		g.assignStmt(2)
-	case 8: // if / else
+	case 8: // if / else if / else
 		g.emit("if %s {", g.boolExpr(2, false).s)
 		g.body(1+g.r.Intn(3), d-1)
+		if g.r.Chance(1, 4) {
+			g.emit("} else if %s {", g.boolExpr(2, false).s)
+			g.body(1+g.r.Intn(2), d-1)
+		}
 		if g.r.Bool() {
 			g.emit("} else {")
 			g.body(1+g.r.Intn(2), d-1)
